@@ -249,7 +249,10 @@ def run_check(prop: str, tier: str) -> int:
     # ---- the same decision taken inside the running scheduler loop (slow sources: the instant of consideration is after the listing)
     from engine import sch_check
     loop_map = {"C13": ("C15_CronMissed", "C15_CronExtra"), "C14": ("C15_Late", "C15_NotEarly", "C15_Unexpected", "C15_Missing")}[prop]
-    lscns = sch_check.gen_latency(seed, 150 if q else 2000) + list(sch_check.gen_sweep(full=False))[:: (4 if q else 1)]
+    lscns = sch_check.gen_latency(seed, 150 if q else 2000) + list(sch_check.gen_sweep(full=False))[:: (4 if q else 1)] + \
+        sch_check.gen_random(seed + 5, 250 if q else 3000)      # incl. stop at the end, other clocks, re-used ids, hourly schedules
+    for i, sc in enumerate(lscns):
+        sc["cfg"].setdefault("stop_at_end", i % 2 == 1)
     ltraces = mbt.drive("engine.sch_check", "_drive_one", lscns)
     lverd = mbt.observe(ltraces, "ObsSched", shards=8)
     for i, v in enumerate(lverd):
